@@ -88,7 +88,7 @@ class MonthLongStringMiddleware(_MonthInterpolator):
     # docstr-coverage: inherited
     def resolve_month_field_val(self, month_field: Field):
         v = month_field.value
-        if isinstance(v, str) and v.isdigit():
+        if isinstance(v, str) and v.isdecimal():
             v = int(v)
         if isinstance(v, int):
             if v < 1 or v > 12:
@@ -132,7 +132,7 @@ class MonthAbbreviationMiddleware(_MonthInterpolator):
     # docstr-coverage: inherited
     def resolve_month_field_val(self, month_field: Field):
         v = month_field.value
-        if isinstance(v, str) and v.isdigit():
+        if isinstance(v, str) and v.isdecimal():
             v = int(v)
         if isinstance(v, int):
             if v < 1 or v > 12:
@@ -180,7 +180,7 @@ class MonthIntMiddleware(_MonthInterpolator):
                     "transformed abbreviated month to int-month",
                 )
 
-        if isinstance(v, str) and v.isdigit():
+        if isinstance(v, str) and v.isdecimal():
             if 1 <= int(v) <= 12:
                 return int(v), "cast month int-string to int"
 
